@@ -738,3 +738,87 @@ def c02_12(R):
                     R.fail([owner_fn(b), "Timer::expired-on-a-copy", src.describe()], "%s asks a detached copy of a timer whether it expired (%s): the stored timer is not the one being tested"
                            % (owner_fn(b).split("::")[-1], src.describe()), where=t.where(), instance="timer-read-in-place")
     R.floor("Timer::take sites", n, 1)
+
+
+def _guards_in(body, op, seen=None, depth=0):
+    """lock guards an operand's value was read through (the provenance walk looks through lock()/write()/read(): collect those steps' destinations);
+    follows arithmetic, call arguments and every definition of a re-assigned local (a window sampled once and then decremented in a loop)"""
+    out = set()
+    if seen is None:
+        seen = set()
+    if op is None or getattr(op, "kind", None) == "const" or depth > 8:
+        return out
+    t = trace(body, op)
+    for st in t.steps:
+        if isinstance(st, Term) and st.kind == "call" and st.dest is not None and st.dest.is_local and "Guard" in (body.local_ty(st.dest.local) or ""):
+            out.add(st.dest.local)
+    if t.kind == "rv" and isinstance(t.root[1], Stmt) and t.root[1].rv.kind == "bin":
+        for o in t.root[1].rv.ops:
+            out |= _guards_in(body, o, seen, depth + 1)
+    elif t.kind == "call" and not out:
+        for a in t.root[1].args[:2]:
+            out |= _guards_in(body, a, seen, depth + 1)
+    elif t.kind == "multi":
+        key = t.root[1]
+        if key not in seen:
+            seen.add(key)
+            for d in t.root[3]:
+                if isinstance(d, Stmt):
+                    for o in d.rv.ops:
+                        out |= _guards_in(body, o, seen, depth + 1)
+                    if d.rv.kind == "ref" and d.rv.place is not None:
+                        out |= _guards_in(body, d.rv.place, seen, depth + 1)
+                elif isinstance(d, Term) and d.kind == "call":
+                    if d.dest is not None and d.dest.is_local and "Guard" in (body.local_ty(d.dest.local) or ""):
+                        out.add(d.dest.local)
+                    for a in d.args[:2]:
+                        out |= _guards_in(body, a, seen, depth + 1)
+    return out
+
+
+@rule("C02.13", ["C02", "C07", "C19", "C03"], ["E2", "E4"], "a task decides to wait and registers its waker inside one critical section",
+      "Every update_optional_waker(&mut guard.field, cx) stores the waker through a lock guard. The shared state that made the task decide to wait - each condition controlling that call - must "
+      "have been read through the same guard (or be task-local). If it was sampled in an earlier critical section (a guard that is gone by the time the waker is stored), the other side can "
+      "change the state and look for a waker in between: it finds none, and the task then sleeps on a condition that no longer holds (check-then-register race).")
+def c02_13(R):
+    F = R.facts
+    n = 0
+    for b in F.bodies(lambda nm: "::tests" not in nm and not nm.startswith(("test_util", "e2e_tests"))):
+        for r in b.calls():
+            if not (call_matches(r, ("utils::update_optional_waker",)) and r.args):
+                continue
+            n += 1
+            gs = _guards_in(b, r.args[0])
+            if len(gs) != 1:
+                R.fail([b.name, "waker-not-stored-through-one-guard", str(len(gs))], "the waker slot is not reached through exactly one lock guard here", where=r.where(), instance="check+register-atomic")
+                continue
+            g = next(iter(gs))
+            foreign = []
+            for c, truth, d, term, *_ in controlling(b, r.bb):
+                ops = []
+                if c.kind == "bin":
+                    ops = [c.a, c.b]
+                elif c.kind == "call":
+                    ops = list(c.call.args)
+                elif getattr(c, "trace", None) is not None and getattr(c, "op", None) is not None:
+                    ops = [c.op]
+                elif getattr(c, "place", None) is not None:
+                    ops = [c.place]
+                for o in ops:
+                    try:
+                        og = _guards_in(b, o)
+                    except Exception:
+                        og = set()
+                    if og and g not in og:
+                        # a second lock taken WHILE the waker's guard is already held (the ring's mutex inside the state lock) is part of the same critical section
+                        gdef = b.unique_def(g)
+                        nested = gdef is not None and all(b.unique_def(x) is not None and point_reaches(b, gdef, b.unique_def(x)) and not point_reaches(b, b.unique_def(x), gdef) for x in og)
+                        if not nested:
+                            foreign.append(d)
+            if foreign:
+                R.fail([b.name, "decision-read-under-another-guard"] + sorted(set(foreign))[:2],
+                       "%s stores its waker under one lock acquisition but decided to wait on state read under an earlier one (%s): a change made in between finds no waker to wake and is not seen either"
+                       % (b.name.split("::")[-1], ", ".join(sorted(set(foreign))[:2])), where=r.where(), instance="check+register-atomic")
+            else:
+                R.ok("check+register-atomic", b.name, "registration at %s: every shared condition was read through the guard that holds the waker slot" % r.where())
+    R.floor("waker registration sites", n, 7)
